@@ -16,20 +16,7 @@ META = {
 
 # Defect demonstrated by this check on the unchanged /repo (see the report): lookupJSONSpace is [255]uint8, so byte 0xFF
 # in prefix or indent indexes outside it and MarshalJSONIndent panics instead of returning its documented error.
-PROPOSED_KNOWN = [
-    # one root cause (builtin.go, Capitalize: `s[i+utf8.RuneLen(r):]` after `r = unicode.ToUpper(r)` skips the width of the
-    # UPPER-CASED rune instead of the width read at i); "cause" is hostpanic or wrong-result depending on what follows
-    {"kind": "known",
-     "signature": {"fam": "builtins", "fn": "Capitalize", "cause": "*", "detail": "invalid-utf8-input"},
-     "what": "builtin.Capitalize panics (slice bounds out of range) or drops bytes when the first non-separator is an invalid UTF-8 byte: it skips utf8.RuneLen(U+FFFD) = 3 bytes instead of the 1 byte read, e.g. Capitalize(\"\\xff\")"},
-    {"kind": "known",
-     "signature": {"fam": "builtins", "fn": "Capitalize", "cause": "*", "detail": "non-ascii-input"},
-     "what": "builtin.Capitalize panics or corrupts the text after the capitalised letter when its upper case has another UTF-8 width (dotless i U+0131 -> I gives \"I\\xb1...\", U+0250 -> U+2C6F panics on \"\u0250\"): it skips the width of the upper-cased rune, not of the original"},
-    # lookupJSONSpace is [255]uint8: byte 0xFF indexes outside it
-    {"kind": "known",
-     "signature": {"fam": "builtins", "fn": "MarshalJSONIndent", "cause": "hostpanic", "detail": "byte-255-in-prefix-or-indent"},
-     "what": "builtin.MarshalJSONIndent panics (index out of range [255] with length 255: lookupJSONSpace is [255]uint8) instead of returning its documented error when prefix or indent contains byte 0xFF"},
-]
+PROPOSED_KNOWN = []   # both defects found by this check were fixed in /repo (known-findings.json, kind "fixed")
 
 
 def table_size():
